@@ -2,7 +2,7 @@
     and the tracked estimate of the directory model equals the length of the
     serialised block through every history. *)
 From Coq Require Import List ZArith Bool Lia Permutation.
-From V Require Import lib.Verdict lib.GoInt lib.GoBits lib.Varint lib.Pb lib.UnixFsPb lib.DagPb
+From V Require Import lib.Verdict lib.GoInt lib.Varint lib.Pb lib.UnixFsPb lib.DagPb
   gen.Gen_C17 gen.Gen_C17f model.M_C17.
 Import ListNotations.
 Open Scope Z_scope.
@@ -348,7 +348,6 @@ Record inv (M : Z) (T : gtime) (d : dir) : Prop := {
   i_nodup : NoDup (map e_name (links d));
   i_est : est d = data_field_size M T + sum_links (links d);
   i_total : total d = blen (links d);
-  i_dsize : data_field_size (dmode d) (dtime d) = data_field_size M T;
   i_data : ndata d = dir_data_bytes M T
 }.
 
@@ -358,10 +357,10 @@ Proof.
   pose proof (data_field_pos M T HT). pose proof (sum_links_nonneg _ (i_good _ _ _ I)). lia.
 Qed.
 
-Lemma remove_inv : forall M T name d, wf_gtime T -> inv M T d ->
-  inv M T (fst (remove_child name d)) /\ ~ In name (map e_name (links (fst (remove_child name d)))).
+Lemma remove_inv : forall fl M T name d, wf_gtime T -> inv M T d ->
+  inv M T (fst (remove_child fl name d)) /\ ~ In name (map e_name (links (fst (remove_child fl name d)))).
 Proof.
-  intros M T name d HT I. unfold remove_child.
+  intros fl M T name d HT I. unfold remove_child.
   destruct (find_link name (links d)) as [old|] eqn:Ef; cbn [fst].
   - destruct (find_link_spec _ _ _ Ef) as [Hin Hname].
     destruct (drop_name_present name (links d) old (i_nodup _ _ _ I) Ef) as (S1 & S2 & S3 & S4 & S5).
@@ -383,7 +382,6 @@ Proof.
     + exact S4.
     + rewrite (i_est _ _ _ I), S1. lia.
     + rewrite (i_total _ _ _ I), S2. reflexivity.
-    + exact (i_dsize _ _ _ I).
     + exact (i_data _ _ _ I).
   - split; [exact I|]. apply find_link_none. exact Ef.
 Qed.
@@ -398,12 +396,12 @@ Proof.
     + apply IH; [exact Hl|]. intro Hin. apply Hx. right. exact Hin.
 Qed.
 
-Lemma add_inv : forall M T e d, wf_gtime T -> good_entry e -> inv M T d ->
-  inv M T (fst (add_child e d)).
+Lemma add_inv : forall fl M T e d, wf_gtime T -> good_entry e -> inv M T d ->
+  inv M T (fst (add_child fl e d)).
 Proof.
-  intros M T e d HT He I. unfold add_child.
-  destruct (remove_inv M T (e_name e) d HT I) as [I1 Hfresh].
-  set (d1 := fst (remove_child (e_name e) d)) in *.
+  intros fl M T e d HT He I. unfold add_child.
+  destruct (remove_inv fl M T (e_name e) d HT I) as [I1 Hfresh].
+  set (d1 := fst (remove_child fl (e_name e) d)) in *.
   destruct He as [Hw Hts]. unfold tsize_ok in Hts.
   destruct (Z.leb_spec two63 (e_tsize e)); [lia|]. cbn [fst].
   pose proof (est_nonneg M T d1 HT I1) as E1. pose proof (link_size_pos e Hw Hts) as Lp.
@@ -415,7 +413,6 @@ Proof.
   - rewrite map_app. cbn [map]. apply NoDup_snoc; [exact (i_nodup _ _ _ I1)|exact Hfresh].
   - rewrite (i_est _ _ _ I1), sum_links_app. cbn [sum_links fold_right]. lia.
   - rewrite (i_total _ _ _ I1), blen_app, blen_cons, blen_nil. lia.
-  - exact (i_dsize _ _ _ I1).
   - exact (i_data _ _ _ I1).
 Qed.
 
@@ -451,15 +448,25 @@ Proof.
   unfold wf_gtime, zero_time, zero_sec, two63. cbn [fst snd]. lia.
 Qed.
 
-Lemma new_dir_inv : forall mode t, wf_gtime t -> inv (norm_mode mode) (norm_time t) (new_dir mode t).
+(** the Data field sized as stored = dataFieldSerializedSize of what was stored *)
+Lemma stored_data_part : forall M T, wf_gtime T ->
+  1 + varintLen (blen (dir_data_bytes M T)) + blen (dir_data_bytes M T) = data_field_size M T.
 Proof.
-  intros mode t H. unfold new_dir. fold (norm_mode mode). fold (norm_time t). unfold recompute.
+  intros M T H. rewrite (data_field_exact M T H). unfold data_entry_size.
+  pose proof (dir_data_bytes_len M T H). pose proof (blen_nonneg (dir_data_bytes M T)).
+  rewrite varintLen_vlen by lia. reflexivity.
+Qed.
+
+Lemma new_dir_inv : forall fl mode t, wf_gtime t ->
+  inv (norm_mode mode) (norm_time t) (new_dir fl mode t).
+Proof.
+  intros fl mode t H. unfold new_dir. fold (norm_mode mode). fold (norm_time t). unfold recompute.
   cbn [links est total dmode dtime ndata].
   constructor; cbn [links est total dmode dtime ndata map sum_links fold_right].
   - constructor.
   - constructor.
-  - reflexivity.
-  - reflexivity.
+  - unfold data_part. cbn [ndata dmode dtime]. destruct fl; [|reflexivity].
+    rewrite (stored_data_part _ _ (wf_norm_time t H)). reflexivity.
   - reflexivity.
   - reflexivity.
 Qed.
@@ -478,13 +485,13 @@ Lemma step_inv_edit : forall fl M T o d, wf_gtime T -> inv M T d -> wf_op o -> i
   exists d' ok, step fl d o = Some (d', ok) /\ inv M T d'.
 Proof.
   intros fl M T o d HT I W E. destruct o as [e|name| ]; cbn [step wf_op is_edit] in *; [| |discriminate].
-  - destruct (add_child e d) as [d' ok] eqn:Ea. exists d', ok. split; [reflexivity|].
+  - destruct (add_child fl e d) as [d' ok] eqn:Ea. exists d', ok. split; [reflexivity|].
     destruct (Z_lt_le_dec (e_tsize e) two63) as [Hlt|Hge].
-    + pose proof (add_inv M T e d HT (conj W Hlt) I) as A. rewrite Ea in A. exact A.
+    + pose proof (add_inv fl M T e d HT (conj W Hlt) I) as A. rewrite Ea in A. exact A.
     + unfold add_child in Ea. destruct (Z.leb_spec two63 (e_tsize e)); [|lia].
-      injection Ea as <- _. apply (remove_inv M T (e_name e) d HT I).
-  - destruct (remove_child name d) as [d' ok] eqn:Er. exists d', ok. split; [reflexivity|].
-    pose proof (proj1 (remove_inv M T name d HT I)) as R. rewrite Er in R. exact R.
+      injection Ea as <- _. apply (remove_inv fl M T (e_name e) d HT I).
+  - destruct (remove_child fl name d) as [d' ok] eqn:Er. exists d', ok. split; [reflexivity|].
+    pose proof (proj1 (remove_inv fl M T name d HT I)) as R. rewrite Er in R. exact R.
 Qed.
 
 Lemma run_inv_edit : forall fl M T ops d, wf_gtime T -> inv M T d ->
@@ -503,11 +510,11 @@ Qed.
     estimate is the exact length of the block that GetNode().RawData() returns. *)
 Theorem edits_exact : forall fl mode t ops,
   wf_gtime t -> Forall wf_op ops -> forallb is_edit ops = true ->
-  exists d, run fl (new_dir mode t) ops = Some d /\
+  exists d, run fl (new_dir fl mode t) ops = Some d /\
             est d = blen (node_bytes d) /\ 0 <= est d /\ total d = blen (links d).
 Proof.
   intros fl mode t ops Ht W E.
-  destruct (run_inv_edit fl _ _ ops _ (wf_norm_time t Ht) (new_dir_inv mode t Ht) W E) as (d & R & I).
+  destruct (run_inv_edit fl _ _ ops _ (wf_norm_time t Ht) (new_dir_inv fl mode t Ht) W E) as (d & R & I).
   exists d. split; [exact R|]. apply (inv_exact _ _ d (wf_norm_time t Ht) I).
 Qed.
 
@@ -515,11 +522,11 @@ Qed.
     mode field carries no permission bits *)
 Theorem reload_refuted : exists mode t ops d,
   wf_gtime t /\ Forall wf_op ops /\
-  run false (new_dir mode t) ops = Some d /\ est d <> blen (node_bytes d) /\
-  exists d', run true (new_dir mode t) ops = Some d' /\ est d' = blen (node_bytes d').
+  run false (new_dir false mode t) ops = Some d /\ est d <> blen (node_bytes d) /\
+  exists d', run true (new_dir true mode t) ops = Some d' /\ est d' = blen (node_bytes d').
 Proof.
   exists ModeDir, zero_time, [OReload].
-  destruct (run false (new_dir ModeDir zero_time) [OReload]) as [d|] eqn:E; [|vm_compute in E; discriminate].
+  destruct (run false (new_dir false ModeDir zero_time) [OReload]) as [d|] eqn:E; [|vm_compute in E; discriminate].
   exists d. split; [unfold wf_gtime, zero_time, zero_sec, two63; cbn [fst snd]; lia|].
   split; [repeat constructor|]. split; [reflexivity|].
   vm_compute in E. injection E as <-. split; [vm_compute; discriminate|].
@@ -527,64 +534,8 @@ Proof.
 Qed.
 
 (** ================================================================
-    Part 5 — reload (NewBasicDirectoryFromNode) in the repaired model
+    Part 5 — reload (NewBasicDirectoryFromNode) with the repair
     ================================================================ *)
-Lemma unix_perms_high_bits : forall m i, 12 <= i -> Z.testbit (ModePermsToUnixPerms m) i = false.
-Proof.
-  intros m i Hi. unfold ModePermsToUnixPerms. tbnorm.
-  repeat match goal with
-  | |- context [Z.testbit (Zpos ?p) ?k] =>
-      let e := eval vm_compute in (Z.log2 (Zpos p) + 1) in
-      rewrite (tb_const_hi (Zpos p) e k) by (split; [split; [discriminate|reflexivity]|lia] || lia)
-  end.
-  rewrite ?andb_false_r, ?andb_false_l, ?orb_false_r. reflexivity.
-Qed.
-
-Lemma unix_perms_range : forall m, 0 <= ModePermsToUnixPerms m < 4096.
-Proof.
-  intro m.
-  assert (Hn : 0 <= ModePermsToUnixPerms m).
-  { apply Z.bits_iff_nonneg_ex. exists 12. intros i Hi. apply unix_perms_high_bits. lia. }
-  split; [exact Hn|]. change 4096 with (2 ^ 12).
-  apply lt_pow2_of_bits; [exact Hn|lia|]. intros i Hi. apply unix_perms_high_bits. exact Hi.
-Qed.
-
-(** what Mode() gives back for a directory with permission word p re-encodes to p *)
-Definition reload_ok (p : Z) : bool :=
-  let md := Z.lor (UnixPermsToModePerms p) ModeDir in
-  negb (md =? 0) && (ModePermsToUnixPerms md =? p).
-
-Lemma reload_sweep : forallb reload_ok (map (fun x => x + 1) (zrange 4095)) = true.
-Proof. vm_compute. reflexivity. Qed.
-
-Lemma reload_word : forall p, 1 <= p < 4096 ->
-  Z.lor (UnixPermsToModePerms p) ModeDir <> 0 /\
-  ModePermsToUnixPerms (Z.lor (UnixPermsToModePerms p) ModeDir) = p.
-Proof.
-  intros p H.
-  assert (Hin : In p (map (fun x => x + 1) (zrange 4095))).
-  { apply in_map_iff. exists (p - 1). split; [lia|]. apply zrange_in. lia. }
-  pose proof (proj1 (forallb_forall reload_ok _) reload_sweep p Hin) as S.
-  unfold reload_ok in S. apply andb_true_iff in S. destruct S as [S1 S2].
-  apply negb_true_iff in S1. apply Z.eqb_neq in S1. apply Z.eqb_eq in S2. split; assumption.
-Qed.
-
-Lemma data_field_size_congr : forall m1 m2 t,
-  (m1 =? 0) = (m2 =? 0) -> ModePermsToUnixPerms m1 = ModePermsToUnixPerms m2 ->
-  data_field_size m1 t = data_field_size m2 t.
-Proof.
-  intros m1 m2 t H1 H2. unfold data_field_size, data_inner_size. rewrite H1, H2. reflexivity.
-Qed.
-
-Lemma time_of_dir_data : forall M T, wf_gtime T -> norm_time T = T -> time_of (dir_data M T) = T.
-Proof.
-  intros M [s n] [Hs Hn] HN. unfold norm_time in HN. unfold time_of, dir_data. cbn [d_mtime fst snd] in *.
-  destruct (is_zero (s, n)) eqn:Ez; [exact HN|].
-  cbn [t_sec t_nanos]. destruct (Z.ltb_spec 0 n).
-  - destruct (Z.ltb_spec n 1); [lia|]. destruct (Z.ltb_spec 999999999 n); [lia|]. reflexivity.
-  - replace n with 0 by lia. reflexivity.
-Qed.
-
 Lemma decode_dir_data : forall M T, wf_gtime T -> decode_data (dir_data_bytes M T) = Some (dir_data M T).
 Proof.
   intros M T H. apply decode_encode; [apply wf_dir_data; exact H|].
@@ -600,76 +551,47 @@ Proof.
   induction P as [|x l l' _ IH|x y l|l l' l'' _ IH1 _ IH2]; cbn [fold_right]; lia.
 Qed.
 
-Lemma reload_inv : forall M T d, wf_gtime T -> norm_time T = T -> inv M T d ->
+(** sizing the Data field as it is stored makes the reload exact whatever
+    Mode()/ModTime() read back *)
+Lemma reload_inv : forall M T d, wf_gtime T -> inv M T d ->
   exists d', reload true d = Some d' /\ inv M T d'.
 Proof.
-  intros M T d HT HN I. unfold reload. rewrite (i_data _ _ _ I), decode_dir_data by exact HT.
-  rewrite time_of_dir_data by assumption.
+  intros M T d HT I. unfold reload. rewrite (i_data _ _ _ I), decode_dir_data by exact HT.
   eexists. split; [reflexivity|].
   pose proof (sort_links_perm (links d)) as P.
-  assert (DS : forall md, (md =? 0) = (M =? 0) ->
-                          ModePermsToUnixPerms md = ModePermsToUnixPerms (if M =? 0 then 0 else M) ->
-                          data_field_size md T = data_field_size M T).
-  { intros md H1 H2. apply data_field_size_congr; [exact H1|].
-    rewrite H2. destruct (Z.eqb_spec M 0) as [->|]; reflexivity. }
-  set (md := if (true && (mode_of_dir (dir_data M T) =? 0) &&
-                 match d_mode (dir_data M T) with Some _ => true | None => false end)%bool
-             then ModeDir else mode_of_dir (dir_data M T)).
-  assert (MD : data_field_size md T = data_field_size M T).
-  { apply DS; unfold md, mode_of_dir, dir_data; cbn [d_mode andb].
-    - destruct (Z.eqb_spec M 0) as [->|Hne]; [reflexivity|].
-      pose proof (unix_perms_range M) as R.
-      change 4095 with (Z.ones 12). rewrite Z.land_ones by lia. rewrite Z.mod_small by (change (2 ^ 12) with 4096; lia).
-      destruct (Z.eqb_spec (ModePermsToUnixPerms M) 0) as [E0|E0].
-      + cbn [Z.eqb andb]. reflexivity.
-      + destruct (reload_word (ModePermsToUnixPerms M) ltac:(lia)) as [Hnz _].
-        destruct (Z.eqb_spec (Z.lor (UnixPermsToModePerms (ModePermsToUnixPerms M)) ModeDir) 0); [contradiction|].
-        cbn [andb]. destruct (Z.eqb_spec (Z.lor (UnixPermsToModePerms (ModePermsToUnixPerms M)) ModeDir) 0); [contradiction|reflexivity].
-    - destruct (Z.eqb_spec M 0) as [->|Hne]; [reflexivity|].
-      pose proof (unix_perms_range M) as R.
-      change 4095 with (Z.ones 12). rewrite Z.land_ones by lia. rewrite Z.mod_small by (change (2 ^ 12) with 4096; lia).
-      destruct (Z.eqb_spec (ModePermsToUnixPerms M) 0) as [E0|E0].
-      + cbn [Z.eqb andb]. rewrite E0. reflexivity.
-      + destruct (reload_word (ModePermsToUnixPerms M) ltac:(lia)) as [Hnz Hp].
-        destruct (Z.eqb_spec (Z.lor (UnixPermsToModePerms (ModePermsToUnixPerms M)) ModeDir) 0); [contradiction|].
-        cbn [andb]. exact Hp. }
-  unfold recompute. cbn [links est total dmode dtime ndata]. fold md.
+  unfold recompute, data_part. cbn [links est total dmode dtime ndata].
   constructor; cbn [links est total dmode dtime ndata].
   - apply Forall_forall. intros x Hx. apply (proj1 (Forall_forall _ _) (i_good _ _ _ I)).
     eapply Permutation_in; [apply Permutation_sym, P|exact Hx].
   - eapply Permutation_NoDup; [apply Permutation_map, P|exact (i_nodup _ _ _ I)].
-  - rewrite MD, <- (sum_links_perm _ _ P). reflexivity.
+  - rewrite (stored_data_part M T HT), <- (sum_links_perm _ _ P). reflexivity.
   - reflexivity.
-  - exact MD.
   - reflexivity.
 Qed.
 
-Lemma norm_time_idem : forall t, norm_time (norm_time t) = norm_time t.
-Proof. intro t. unfold norm_time. destruct (is_zero t) eqn:E; [reflexivity|]. rewrite E. reflexivity. Qed.
-
-Lemma run_inv_fixed : forall M T ops d, wf_gtime T -> norm_time T = T -> inv M T d ->
+Lemma run_inv_fixed : forall M T ops d, wf_gtime T -> inv M T d ->
   Forall wf_op ops -> exists d', run true d ops = Some d' /\ inv M T d'.
 Proof.
-  induction ops as [|o ops IH]; intros d HT HN I W; cbn [run] in *.
+  induction ops as [|o ops IH]; intros d HT I W; cbn [run] in *.
   - exists d. split; [reflexivity|exact I].
   - inversion W as [|? ? Wo Wops]; subst.
     destruct (is_edit o) eqn:Eo.
     + destruct (step_inv_edit true M T o d HT I Wo Eo) as (d1 & ok & S1 & I1). rewrite S1.
-      apply (IH d1 HT HN I1 Wops).
+      apply (IH d1 HT I1 Wops).
     + destruct o; try discriminate. cbn [step].
-      destruct (reload_inv M T d HT HN I) as (d1 & R1 & I1). rewrite R1.
-      apply (IH d1 HT HN I1 Wops).
+      destruct (reload_inv M T d HT I) as (d1 & R1 & I1). rewrite R1.
+      apply (IH d1 HT I1 Wops).
 Qed.
 
-(** With the reload repaired ([fl = true]): creation, then ANY sequence of adds,
+(** With the repair ([fl = true]): creation, then ANY sequence of adds,
     replacements, removals AND reloads of the serialised block. *)
 Theorem history_exact_fixed : forall mode t ops,
   wf_gtime t -> Forall wf_op ops ->
-  exists d, run true (new_dir mode t) ops = Some d /\
+  exists d, run true (new_dir true mode t) ops = Some d /\
             est d = blen (node_bytes d) /\ 0 <= est d /\ total d = blen (links d).
 Proof.
   intros mode t ops Ht W.
-  destruct (run_inv_fixed _ _ ops _ (wf_norm_time t Ht) (norm_time_idem t) (new_dir_inv mode t Ht) W)
+  destruct (run_inv_fixed _ _ ops _ (wf_norm_time t Ht) (new_dir_inv true mode t Ht) W)
     as (d & R & I).
   exists d. split; [exact R|]. apply (inv_exact _ _ d (wf_norm_time t Ht) I).
 Qed.
@@ -687,11 +609,11 @@ Proof.
   - pose proof (link_size_pos x Hw Ht). specialize (IH e Hl Hin). lia.
 Qed.
 
-Lemma remove_child_est : forall M T name d old, wf_gtime T -> inv M T d ->
+Lemma remove_child_est : forall fl M T name d old, wf_gtime T -> inv M T d ->
   find_link name (links d) = Some old ->
-  est (fst (remove_child name d)) = est d - linkSerializedSize name (blen (e_cid old)) (e_tsize old).
+  est (fst (remove_child fl name d)) = est d - linkSerializedSize name (blen (e_cid old)) (e_tsize old).
 Proof.
-  intros M T name d old HT I Ef. unfold remove_child. rewrite Ef. cbn [fst est].
+  intros fl M T name d old HT I Ef. unfold remove_child. rewrite Ef. cbn [fst est].
   destruct (find_link_spec _ _ _ Ef) as [Hin Hname].
   assert (Hls : linkSerializedSize name (blen (e_cid old)) (e_tsize old) = link_size old)
     by (unfold link_size; rewrite Hname; reflexivity).
@@ -702,62 +624,63 @@ Proof.
   rewrite (i_est _ _ _ I) in Hneg. lia.
 Qed.
 
-Lemma remove_child_est_absent : forall name d, find_link name (links d) = None ->
-  fst (remove_child name d) = d.
-Proof. intros name d Ef. unfold remove_child. rewrite Ef. reflexivity. Qed.
+Lemma remove_child_est_absent : forall fl name d, find_link name (links d) = None ->
+  fst (remove_child fl name d) = d.
+Proof. intros fl name d Ef. unfold remove_child. rewrite Ef. reflexivity. Qed.
 
 (** needsToSwitchByBlockSize computes exactly the estimate the directory has after the edit *)
-Lemma decision_is_next_estimate : forall M T e d, wf_gtime T -> good_entry e -> inv M T d ->
-  decision_size e d = est (fst (add_child e d)).
+Lemma decision_is_next_estimate : forall fl M T e d, wf_gtime T -> good_entry e -> inv M T d ->
+  decision_size e d = est (fst (add_child fl e d)).
 Proof.
-  intros M T e d HT He I. unfold decision_size.
-  destruct (remove_inv M T (e_name e) d HT I) as [I1 _].
+  intros fl M T e d HT He I. unfold decision_size.
+  destruct (remove_inv fl M T (e_name e) d HT I) as [I1 _].
   pose proof (est_nonneg M T _ HT I1) as E1.
   destruct He as [Hw Hts]. pose proof (link_size_pos e Hw Hts) as Lp. unfold tsize_ok in Hts.
-  assert (A : est (fst (add_child e d)) = est (fst (remove_child (e_name e) d)) + link_size e).
+  assert (A : est (fst (add_child fl e d)) = est (fst (remove_child fl (e_name e) d)) + link_size e).
   { unfold add_child. destruct (Z.leb_spec two63 (e_tsize e)); [lia|]. cbn [fst est].
     unfold fix_negative. cbn [est].
-    destruct (Z.ltb_spec (est (fst (remove_child (e_name e) d)) + link_size e) 0); [lia|reflexivity]. }
+    destruct (Z.ltb_spec (est (fst (remove_child fl (e_name e) d)) + link_size e) 0); [lia|reflexivity]. }
   rewrite A. destruct (find_link (e_name e) (links d)) as [old|] eqn:Ef.
-  - rewrite (remove_child_est M T _ d old HT I Ef). lia.
-  - rewrite (remove_child_est_absent _ d Ef). lia.
+  - rewrite (remove_child_est fl M T _ d old HT I Ef). lia.
+  - rewrite (remove_child_est_absent fl _ d Ef). lia.
 Qed.
 
 (** ... which is the exact length of the block after the edit *)
-Theorem decision_exact : forall M T e d, wf_gtime T -> good_entry e -> inv M T d ->
-  decision_size e d = blen (node_bytes (fst (add_child e d))).
+Theorem decision_exact : forall fl M T e d, wf_gtime T -> good_entry e -> inv M T d ->
+  decision_size e d = blen (node_bytes (fst (add_child fl e d))).
 Proof.
-  intros M T e d HT He I. rewrite (decision_is_next_estimate M T e d HT He I).
-  apply (inv_exact M T _ HT (add_inv M T e d HT He I)).
+  intros fl M T e d HT He I. rewrite (decision_is_next_estimate fl M T e d HT He I).
+  apply (inv_exact M T _ HT (add_inv fl M T e d HT He I)).
 Qed.
 
 Definition wf_dop (x : Z * op) : Prop :=
   match snd x with OAdd e => good_entry e | _ => True end.
 
-Lemma dyn_sound_inv : forall M T ops d, wf_gtime T -> inv M T d -> Forall wf_dop ops ->
-  dyn_sound d ops = true.
+Lemma dyn_sound_inv : forall fl M T ops d, wf_gtime T -> inv M T d -> Forall wf_dop ops ->
+  dyn_sound fl d ops = true.
 Proof.
+  intros fl M T.
   induction ops as [|[thr o] ops IH]; intros d HT I W; cbn [dyn_sound]; [reflexivity|].
   inversion W as [|? ? Wo Wops]; subst. unfold wf_dop in Wo. cbn [snd] in Wo.
   destruct o as [e|name| ]; cbn [basic_edit dyn_decide decision_rule].
-  - destruct (add_child e d) as [d' ok] eqn:Ea.
-    pose proof (decision_exact M T e d HT Wo I) as DX. rewrite Ea in DX. cbn [fst] in DX.
+  - destruct (add_child fl e d) as [d' ok] eqn:Ea.
+    pose proof (decision_exact fl M T e d HT Wo I) as DX. rewrite Ea in DX. cbn [fst] in DX.
     unfold needs_switch. rewrite DX, eqb_reflx. cbn [andb].
     destruct (effective_threshold thr <? blen (node_bytes d')); [reflexivity|].
     apply IH; [exact HT| |exact Wops].
-    pose proof (add_inv M T e d HT Wo I) as A. rewrite Ea in A. exact A.
-  - destruct (remove_child name d) as [d' ok] eqn:Er. cbn [negb andb].
+    pose proof (add_inv fl M T e d HT Wo I) as A. rewrite Ea in A. exact A.
+  - destruct (remove_child fl name d) as [d' ok] eqn:Er. cbn [negb andb].
     apply IH; [exact HT| |exact Wops].
-    pose proof (proj1 (remove_inv M T name d HT I)) as R. rewrite Er in R. exact R.
+    pose proof (proj1 (remove_inv fl M T name d HT I)) as R. rewrite Er in R. exact R.
   - cbn [negb andb]. apply IH; assumption.
 Qed.
 
 (** Every dynamic history, every threshold sequence: the directory converts to a
     HAMT at an AddChild exactly when the block the basic directory would
     serialise after that edit is longer than the threshold in force. *)
-Theorem decision_sound : forall mode t ops,
-  wf_gtime t -> Forall wf_dop ops -> dyn_sound (new_dir mode t) ops = true.
+Theorem decision_sound : forall fl mode t ops,
+  wf_gtime t -> Forall wf_dop ops -> dyn_sound fl (new_dir fl mode t) ops = true.
 Proof.
-  intros mode t ops Ht W.
-  apply (dyn_sound_inv _ _ ops _ (wf_norm_time t Ht) (new_dir_inv mode t Ht) W).
+  intros fl mode t ops Ht W.
+  apply (dyn_sound_inv fl _ _ ops _ (wf_norm_time t Ht) (new_dir_inv fl mode t Ht) W).
 Qed.
